@@ -1183,3 +1183,98 @@ example : (faceFace 4 2 (edgeFace [[0, 1, 2], [0, 3, 4], [1, 5, 6], [2, 7, 8]] [
     = [3, 2, 2, 2] := by decide
 
 end UxVerif.C03
+
+namespace UxVerif.C03
+open UxVerif UxVerif.Incidence UxVerif.Incidence.Transport
+
+/-! ### the ORDER inside the rows the builders produce (what "identical to the model" means)
+
+  The specification leaves the order inside a row free; the loops, however, are deterministic: faces are
+  visited in ascending order and edges in ascending order, so node_face rows list faces ascending, an
+  interior edge lists its lower-numbered face first, hole edges are ascending, and face_face rows list
+  neighbours by ascending number of the shared edge — padding always last. -/
+
+theorem feed_flatMap {α V : Type} (L : List α) (g : α → List (Nat × V)) (k : Nat) :
+    feed (L.flatMap g) k = L.flatMap (fun a => feed (g a) k) := by
+  induction L with
+  | nil => simp [feed]
+  | cons a L ih => rw [List.flatMap_cons, feed_append, ih, List.flatMap_cons]
+
+/-- values fed by a loop over faces in ascending order are ascending -/
+theorem feed_faces_ascending (F : Nat) (rows : Nat → List Int) (k : Nat) :
+    (feed ((List.range F).flatMap (fun f => (rows f).map (fun y => (y.toNat, Int.ofNat f)))) k).Pairwise
+      (· ≤ ·) := by
+  rw [feed_flatMap, List.pairwise_flatMap]
+  constructor
+  · intro f _
+    rw [feed_row]
+    exact List.pairwise_replicate.mpr (Or.inr (Int.le_refl _))
+  · refine List.Pairwise.imp ?_ List.pairwise_lt_range
+    intro a b hab x hx y hy
+    rw [feed_row] at hx hy
+    have := (List.mem_replicate.mp hx).2
+    have := (List.mem_replicate.mp hy).2
+    subst_vars
+    simp only [Int.ofNat_eq_natCast]; omega
+
+/-- **node_face rows**: the faces of a node in ascending order, then only padding -/
+theorem nodeFace_row_ascending (n : Nat) (t : Table) (v : Nat) (hv : v < n) :
+    rowAt (nodeFace n t) v = padTo (maxLen (nodeFaceLists n t)) (feed (nfEvents t) v) ∧
+    (feed (nfEvents t) v).Pairwise (· ≤ ·) := by
+  have hlen : (nodeFaceLists n t).length = n := by
+    unfold nodeFaceLists; rw [keyedFold_length]; simp
+  refine ⟨?_, feed_faces_ascending t.length (fun f => real (rowAt t f)) v⟩
+  unfold nodeFace
+  simp only []
+  rw [rowAt_map _ _ _ (by omega), rowAt_of_get (nodeFaceLists_get n t v hv)]
+
+/-- **edge_face rows**: an interior edge lists its lower-numbered face first (a boundary edge: face, padding) -/
+theorem edgeFace_row_ordered {n : Nat} {t FE : Table} {N : List Nat} {nEdge : Nat}
+    (h : Pre n t FE N nEdge) (e : Nat) (he : e < nEdge) :
+    let p := (edgeFace FE N nEdge).getD e (FILL, FILL)
+    p.2 = FILL ∨ p.1 ≤ p.2 := by
+  simp only []
+  rw [edgeFace_get FE N nEdge e he]
+  have hinc := h.2.2.1 e he
+  have hfeed := mem_feed_ef h e
+  have hs := feed_faces_ascending FE.length (faceEdgesOf FE N) e
+  change (feed (efEvents FE N) e).Pairwise (· ≤ ·) at hs
+  unfold incidence at hinc
+  generalize feed (efEvents FE N) e = l at hinc hfeed hs
+  match l, hinc with
+  | [a], _ => left; rw [slot_one]
+  | [a, b], _ =>
+    obtain ⟨fa, _, rfl, _⟩ := (hfeed a).mp (by simp)
+    rw [slot_two _ _ (ofNat_ne_fill fa)]
+    right
+    exact (List.pairwise_cons.mp hs).1 b (by simp)
+  | [], h0 => simp at h0
+  | _ :: _ :: _ :: _, h3 => simp at h3
+
+/-- **hole_edge_indices** are ascending (`np.where`) -/
+theorem holes_ascending (EF : List (Int × Int)) : (holeEdges EF).Pairwise (· < ·) := by
+  unfold holeEdges; exact List.Pairwise.filter _ List.pairwise_lt_range
+
+/-- **face_face rows**: the neighbours across the face's interior edges by ascending edge number, then only
+    padding (closed form of the row) -/
+theorem faceFace_row_by_edge (nFace w : Nat) (EF : List (Int × Int)) (f : Nat) (hf : f < nFace) :
+    rowAt (faceFace nFace w EF) f
+      = padTo w ((List.range EF.length).flatMap (fun e => feed (ffEventsOf (EF.getD e (FILL, FILL))) f)) := by
+  have hL : (faceFaceLists nFace EF).length = nFace := by
+    unfold faceFaceLists; rw [keyedFold_length]; simp
+  unfold faceFace
+  rw [rowAt_map _ _ _ (by omega), rowAt_of_get (faceFaceLists_get nFace EF f hf)]
+  congr 1
+  unfold ffEvents
+  conv => lhs; rw [eq_map_getD_range EF (FILL, FILL)]
+  rw [List.flatMap_map, feed_flatMap]
+
+/-- the order on the three-triangle example, and on a fan where the order is visible: face 0 of the fan
+    meets face 3 across edge 0 and face 1 across edge 1, so its row reads `[3, 1]`, not `[1, 3]` -/
+example : (build 5 3 [[0, 1, 2], [0, 2, 3], [0, 3, 4], [0, 4, 1]]
+      [[0, 2, 1], [1, 4, 3], [3, 6, 5], [5, 7, 0]] [3, 3, 3, 3] 8).faceFace
+    = [[3, 1, FILL], [0, 2, FILL], [1, 3, FILL], [0, 2, FILL]] := by decide
+example := edgeFace_row_ordered (n := 7) (t := [[0, 1, 2], [2, 1, 3], [4, 5, 6]])
+    (FE := [[0, 1, 2], [1, 3, 4], [5, 6, 7]]) (N := [3, 3, 3]) (nEdge := 8) (by decide) 1 (by decide)
+
+end UxVerif.C03
